@@ -59,7 +59,8 @@ pub fn uncompact(cells: &[u64], target_resolution: i32) -> Result<Vec<u64>, Stri
         }
 
         resolutions.push(resolution);
-        n += get_num_children(resolution, target_resolution);
+        // Saturating: a later cell may still be refused as too fine, and that error must be reached
+        n = usize::saturating_add(n, get_num_children(resolution, target_resolution));
     }
 
     // Write directly into pre-allocated vec
